@@ -228,9 +228,12 @@ Inductive result :=
      fx_list   the next directory listing (Open) fails; one-shot
      fx_leave  a file creation hit by the counted fault leaves the empty,
                not preallocated file behind (fs.Create: O_EXCL open succeeded,
-               preallocation failed) *)
-Record fxmode := { fx_del : bool; fx_list : bool; fx_leave : bool }.
-Definition fx_none : fxmode := {| fx_del := false; fx_list := false; fx_leave := false |}.
+               preallocation failed)
+     fx_land   a metadata commit or stable write hit by the counted fault reports
+               the failure although its effect reached the disk (bbolt: the meta
+               page is written, the last fdatasync fails) *)
+Record fxmode := { fx_del : bool; fx_list : bool; fx_leave : bool; fx_land : bool }.
+Definition fx_none : fxmode := {| fx_del := false; fx_list := false; fx_leave := false; fx_land := false |}.
 
 Record env := { e_acts : list act;            (* history, newest first *)
                 e_disk : disk;
@@ -240,7 +243,9 @@ Record env := { e_acts : list act;            (* history, newest first *)
 
 Definition armed (e : env) : bool := match e_fault e with Some _ => true | None => false end.
 
-(* one I/O action; false = it failed (and had no effect) *)
+(* one I/O action; false = it failed (and had no effect, unless it is a BoltDB
+   transaction under fx_land) *)
+Definition is_txn (a : act) : bool := match a with ACommit _ | ASetStable _ _ => true | _ => false end.
 Definition is_delete (a : act) : bool := match a with ADelete _ => true | _ => false end.
 
 (* Deletions are exempt from the counted fault: the WAL issues them in Go map
@@ -256,7 +261,13 @@ Definition io (a : act) (e : env) : bool * env :=
               e_fault := e_fault e; e_fx := e_fx e; e_m := e_m e |})
   else
   match e_fault e with
-  | Some O => (false, {| e_acts := AFail a :: e_acts e; e_disk := e_disk e; e_fault := None; e_fx := e_fx e; e_m := e_m e |})
+  | Some O =>
+      if is_txn a && fx_land (e_fx e) then
+        (* reported as failed, then found applied *)
+        (false, {| e_acts := a :: AFail a :: e_acts e; e_disk := apply_act (e_disk e) a; e_fault := None;
+                   e_fx := e_fx e; e_m := e_m e |})
+      else
+      (false, {| e_acts := AFail a :: e_acts e; e_disk := e_disk e; e_fault := None; e_fx := e_fx e; e_m := e_m e |})
   | Some (S n) => (true, {| e_acts := a :: e_acts e; e_disk := apply_act (e_disk e) a;
                             e_fault := Some n; e_fx := e_fx e; e_m := e_m e |})
   | None => (true, {| e_acts := a :: e_acts e; e_disk := apply_act (e_disk e) a;
@@ -441,7 +452,11 @@ Definition create_next (c : cfg) (next_id : N) (segs : list seginfo) (next_base 
 Definition mutate_gen (defer : bool) (w : wal) (t : txn) (e : env) : result * wal * env * list fname :=
   let ps := {| ps_next_id := tx_next_id t; ps_segs := tx_segs t |} in
   let '(ok, e1) := io (ACommit ps) e in
-  if negb ok then (RErrIO, w, e1, [])
+  if negb ok then
+    (* the outcome of a failed commit is unknown (it may have reached the disk): the
+       WAL refuses writes until it is reopened *)
+    (RErrIO, {| st_next_id := st_next_id w; st_segs := st_segs w; st_tail := st_tail w;
+                st_rotate := st_rotate w; st_failed := true; st_closed := st_closed w |}, e1, [])
   else
     match tx_create t with
     | None =>
@@ -825,7 +840,7 @@ Definition listed (segs : list seginfo) (n : fname) : bool :=
 
 Definition list_failed (e : env) : env :=
   {| e_acts := AFail AList :: e_acts e; e_disk := e_disk e; e_fault := e_fault e;
-     e_fx := {| fx_del := fx_del (e_fx e); fx_list := false; fx_leave := fx_leave (e_fx e) |};
+     e_fx := {| fx_del := fx_del (e_fx e); fx_list := false; fx_leave := fx_leave (e_fx e); fx_land := fx_land (e_fx e) |};
      e_m := e_m e |}.
 
 Definition open_wal (c : cfg) (e : env) : open_res * env :=
